@@ -58,7 +58,7 @@ func cmdHistory(prop string, n int, seed uint64, driver, out string) (*Result, e
 			if k > 0 {
 				// mutate the store
 				g := GenEval(r.Fork(), &prof)
-				switch r.Intn(4) {
+				switch []int{0, 1, 2, 3, 3, 4}[r.Intn(6)] {
 				case 0: // replace / add flags by new versions
 					for _, it := range g.Flags {
 						replaced := false
@@ -101,6 +101,21 @@ func cmdHistory(prop string, n int, seed uint64, driver, out string) (*Result, e
 						segs = append(segs[:i:i], segs[i+1:]...)
 					}
 					mut = "delete"
+				case 3: // the same big segment moves to its next generation (what a re-sync of a big segment does)
+					for i := range segs {
+						if u := segs[i].Doc.Get("unbounded"); u != nil && u.K == 'b' && u.B {
+							if g := segs[i].Doc.Get("generation"); g != nil && g.K == 'd' {
+								d := segs[i].Doc.Clone()
+								d.Replace("generation", JInt(int64(g.N+1)%3))
+								segs[i] = Item{Key: segs[i].Key, Form: segs[i].Form, Doc: d}
+								changed["s:"+segs[i].Key] = true
+								mut = "next-generation"
+							}
+						}
+					}
+					if mut == "" {
+						mut = "none"
+					}
 				default:
 					mut = "none"
 				}
